@@ -4,6 +4,8 @@ Scenario = flat list of ops.  op ::= :M <scope>            select the mock suppo
                                    | :S.<field> args        entry of MockSupport_c on the selected support
                                    | :E.<field> args        entry of MockExpectedCall_c on the expected call returned last
                                    | :A.<field> args        entry of MockActualCall_c on the actual call returned last
+                                   | :T                     the test ends here, the next test of the scenario begins: the mock state is kept (nothing
+                                                            is cleared or checked for the user), and so are the table pointers / references he holds
 args are generic: numbers ([-]hex; integers, double bit patterns, pointer bits) and byte strings ($hex; names, strings, buffers,
 8-byte objects; ~ = NULL), in the order of the C signature, with `size` arguments implied by the length of the preceding buffer
 and output buffers (16 bytes, pre-filled with 0xEE) supplied by the harness.  A comparator / copier function is a number: its index in
@@ -12,7 +14,7 @@ the harness's pool (harness/C19_shared.h: 2 equality functions, 3 to-string func
 and several type names can share some of their functions and differ in others.
 
 Observation = ":c <half> :x <half>": the scenario through the C interface and through the C++ interface.
-half ::= <failures> <runs of the crash hook> <op at which the test was left | ~> <failure text | ~> <n> (<op> :<T.field> :<kind> <payload>)^n <k> (<op> <16 bytes>)^k
+half ::= <t> (<failures> <runs of the crash hook> <op at which the test was left | ~> <failure text | ~>)^t <n> (<op> :<T.field> :<kind> <payload>)^n <k> (<op> <16 bytes>)^k
 How the test is left: the harness installs a counting crash hook (UtestShell::setCrashMethod); `:S.crashOnFailure <n>` is
 mock_c()->crashOnFailure(n) / mock().crashOnFailure(n != 0); a failure reported through a reporter whose flag is set runs the hook
 (UT_CRASH) before the test is left; both halves must run it equally often.
@@ -41,7 +43,10 @@ RULE = ("every scenario is executed through mock_c()/mock_scope_c() from a C tra
         "with clear() before / after the flag is set / between two generations of expectations, through the same or another "
         "support, WITH and WITHOUT selecting the support again after the clear (a C user keeps the table pointer); the full product "
         "origin x failing scope x flag scope x clear position x re-selection is in every quick run; observed: number of runs of the "
-        "crash hook in each half; (5) interleavings of scopes with readers after the support was switched; (6) random op sequences over the "
+        "crash hook in each half; (4c) SEVERAL TESTS IN A ROW (:T) sharing the mock state: a failing first test (every origin) followed by "
+        "tests that fail again, with the flag set in the first / only in a later test / switched off later, going on with the table "
+        "pointer held (global support) or selecting again, with or without an explicit clear at the start of the next test; "
+        "(5) interleavings of scopes with readers after the support was switched; (6) random op sequences over the "
         "whole grammar; (7) several custom types (T1, T2, T3) whose comparator / copier functions are drawn from a pool of 2 equality x "
         "3 to-string x 2 copier functions WITH SHARING: every pair of (equality, to-string) assignments for two types (36) in both install "
         "orders, one generic equality with a text per type, one text with an equality per type, the same functions under two names, one "
@@ -434,6 +439,13 @@ class Seq:
         self.ops += list(ops)
         return self
 
+    def newtest(self):
+        """the next test: a scope may have been deleted by the clear() of a failing checkExpectations -> it is selected again"""
+        self.ops.append(":T")
+        if self.cur is not None:
+            self.cur = "unset"
+        return self
+
 
 def crash_failure(q, rng, kind, sc, check_sc, late=None):
     """append expectations + calls that fail in the way `kind` says, inside support sc; checkExpectations through check_sc;
@@ -551,6 +563,49 @@ def fam_crash(rng, out, tier):
         crash_failure(q, rng, kind, sc, check_sc, late=late)
         if rng.random() < 0.3:
             q.S(None, "checkExpectations")
+        out.append(join(q.ops))
+
+
+def fam_tests(rng, out, tier):
+    """several tests in a row sharing the mock state: what a failure leaves behind (the reporter in force, the flag, the statics)"""
+    fails = [k for k in CRASH_KINDS if k != "pass"]
+    # (a) product: origin of the first failure x where the flag is set x re-selection x scope, second test fails by the support / by a call
+    for kind in fails:
+        for flagpos in ("first", "second", "first-on-second-off"):
+            for lazy in (True, False):
+                for sc in (None, b"s1"):
+                    for kind2 in ("not-happened", "unexpected-call"):
+                        q = Seq(lazy)
+                        if flagpos != "second":
+                            q.S(rng.choice([None, sc]), "crashOnFailure", rng.choice(CRASH_ON))
+                        else:
+                            q.sel(None)
+                        crash_failure(q, rng, kind, sc, sc if rng.random() < 0.5 else None)
+                        q.newtest()
+                        if rng.random() < 0.3:
+                            q.S(None, "clear")
+                        if flagpos == "second":
+                            q.S(None, "crashOnFailure", rng.choice(CRASH_ON))
+                        elif flagpos == "first-on-second-off":
+                            q.S(rng.choice([None, sc]), "crashOnFailure", 0)
+                        sc2 = rng.choice([None, sc])
+                        crash_failure(q, rng, kind2, sc2, sc2)
+                        out.append(join(q.ops))
+    n = 300 if tier == "quick" else 8000
+    for _ in range(n):
+        q = Seq(rng.random() < 0.6)
+        for t in range(rng.choice([2, 2, 3, 4])):
+            if t:
+                q.newtest()
+                if rng.random() < 0.4:
+                    q.S(None, "clear")
+            elif rng.random() < 0.5:
+                q.sel(None)
+            sc = rng.choice(SCOPES)
+            if rng.random() < (0.7 if t == 0 else 0.3):
+                q.S(rng.choice(SCOPES), "crashOnFailure", rng.choice(CRASH_ON + [0, 0]))
+            late = (rng.choice([sc, None]), rng.choice([0, 1])) if rng.random() < 0.15 else None
+            crash_failure(q, rng, rng.choice(CRASH_KINDS), sc, sc if rng.random() < 0.5 else None, late=late)
         out.append(join(q.ops))
 
 
@@ -683,6 +738,7 @@ def generate(tier, rng):
     fam_outputs(rng, out, tier)
     fam_custom(rng, out, tier)
     fam_crash(rng, out, tier)
+    fam_tests(rng, out, tier)
     fam_flow(rng, out, tier)
     _count_fields(out)
     return out
@@ -709,6 +765,10 @@ def classify(s):
     ops = split_ops(s)
     heads = [o[0] for o in ops]
     labs = ["ops=%d" % min(10 * (len(ops) // 10), 40)]
+    if [":T"] in ops:
+        labs.append("tests>=2")
+        if any(o[0] == ":S.crashOnFailure" for o in ops):
+            labs.append("tests>=2-with-crashOnFailure")
     if any(o[0] == ":M" and o[1] != "~" for o in ops):
         labs.append("scoped")
     for key, lab in (("OrDefault", "OrDefault"), (":S.getData", "data-store"), ("OutputParameter", "output-parameter"), ("OfType", "custom-type"),
@@ -766,20 +826,38 @@ def halves(o):
     return t[1:i], t[i + 1:]
 
 
+def parse_half(h):
+    """tokens of one half -> (tests [(failures, crashes, op, text)], values [(op, field, kind, payload)], rest)"""
+    try:
+        t = int(h[0], 16)
+        tests = [tuple(h[1 + 4 * i: 5 + 4 * i]) for i in range(t)]
+        k = 1 + 4 * t
+        n = int(h[k], 16)
+        vals = [tuple(h[k + 1 + 4 * i: k + 5 + 4 * i]) for i in range(n)]
+        return tests, vals, h[k + 1 + 4 * n:]
+    except Exception:
+        return [], [], h
+
+
 def signature(s, o):
     """which part of the observation differs, and at which entry point"""
     c, x = halves(o)
     if c is None:
         return "crash " + " ".join(o.split()[:4])
-    if c[:1] != x[:1]:
-        return "verdict"
-    if c[1:2] != x[1:2]:
-        return "crash-hook"
-    if c[2:3] != x[2:3]:
-        return "failing-op"
-    if c[3:4] != x[3:4]:
-        return "failure-text"
-    cv, xv = _vals(c), _vals(x)
+    ct, cv, cr = parse_half(c)
+    xt, xv, xr = parse_half(x)
+    if len(ct) != len(xt):
+        return "test-count"
+    for i, (a, b) in enumerate(zip(ct, xt)):
+        later = "" if i == 0 else " in-a-later-test"
+        if a[0] != b[0]:
+            return "verdict" + later
+        if a[1] != b[1]:
+            return "crash-hook" + later
+        if a[2] != b[2]:
+            return "failing-op" + later
+        if a[3] != b[3]:
+            return "failure-text" + later
     for a, b in zip(cv, xv):
         if a != b:
             return "value " + a[1]
@@ -790,11 +868,7 @@ def signature(s, o):
 
 def _vals(h):
     """[(op, field, kind, payload)] of one half"""
-    try:
-        n = int(h[4], 16)
-        return [tuple(h[5 + 4 * i: 9 + 4 * i]) for i in range(n)]
-    except Exception:
-        return []
+    return parse_half(h)[1]
 
 
 def _wellformed(ops):
@@ -805,6 +879,8 @@ def _wellformed(ops):
     e = a = False
     for o in ops:
         h = o[0]
+        if h == ":T" and len(o) != 1:
+            return False
         if h in (":S.expectOneCall", ":S.expectNCalls"):
             e = True
         elif h == ":S.actualCall":
@@ -835,6 +911,16 @@ def _shrink(s):
         keep = [o for o in ops if not (len(o) > 1 and o[1] == ty and ("OfType" in o[0] or o[0].startswith(":S.install")))]
         if len(keep) < len(ops):
             yield " ".join(" ".join(o) for o in keep)
+    # drop a whole test
+    cuts = [i for i, o in enumerate(ops) if o[0] == ":T"]
+    bounds = [-1] + cuts + [len(ops)]
+    if cuts:
+        for a, b in zip(bounds, bounds[1:]):
+            keep = ops[:a + 1] + ops[b + 1:] if a >= 0 else ops[b + 1:]
+            if a >= 0 and b == len(ops):
+                keep = ops[:a]
+            if keep:
+                yield " ".join(" ".join(o) for o in keep)
     # drop one op (never the leading support selection), then a selection + op pair
     for i in range(1, len(ops)):
         yield " ".join(" ".join(o) for o in ops[:i] + ops[i + 1:])
@@ -914,7 +1000,7 @@ LEVEL_TEXT = ("Machine-checked (Coq) theorems over a wiring model REGENERATED FR
               "executed through mock_c() from a C translation unit and through mock() from C++ inside a real test; verdict, failure "
               "text, how the test is left (number of runs of the crash hook installed with UtestShell::setCrashMethod, for crashOnFailure(n) set "
               "through any support and failures raised by an actual call, by MockSupport itself at checkExpectations time or by a plain CHECK, "
-              "before and after clear()), returned values (tag + payload), defaulting, output bytes and data-store reads must be identical; custom types take "
+              "before and after clear(), in one test and over several tests in a row that share the mock state), returned values (tag + payload), defaulting, output bytes and data-store reads must be identical; custom types take "
               "their comparator / copier functions from a pool (2 equality x 3 to-string x 2 copiers) with sharing between type names, as C "
               "function pointers on one side and as C++ comparator / copier objects on the other.")
 LEVEL_NOTE = ("Trusted: Coq kernel, the translator-lite plugin tools/gen/C19.py (anchored regular expressions over the forwarders), extraction, "
@@ -922,7 +1008,6 @@ LEVEL_NOTE = ("Trusted: Coq kernel, the translator-lite plugin tools/gen/C19.py 
               "parameter of the equivalence theorem (its own behaviour is the subject of C08/C09); the model-vs-implementation comparison "
               "is the agreement of the two halves. Not covered: tracing, onObject (absent from the C interface), NULL names, "
               "removeAllComparatorsAndCopiers while custom-type values are alive, a crash hook that does not return (the default abort), "
-              "setMockFailureStandardReporter / MockSupportPlugin (not expressible through the C interface), several tests in a row sharing one "
-              "mock state, CPPUTEST_USE_LONG_LONG=0.")
+              "setMockFailureStandardReporter / MockSupportPlugin (not expressible through the C interface), CPPUTEST_USE_LONG_LONG=0.")
 TECHNIQUE = "Coq proof over wiring tables regenerated from source + C-vs-C++ differential execution of generated scenarios (same scenario through both interfaces)"
 READY = True
